@@ -46,6 +46,12 @@ def specPgn (s : SpecSt) (i : Id) : Nat :=
   | some v => v.1
   | none => 0
 
+/-- two lists agree element by element (same length) -/
+def Agree {α β : Type} (P : α → β → Prop) : List α → List β → Prop
+  | [], [] => True
+  | a :: as, b :: bs => P a b ∧ Agree P as bs
+  | _, _ => False
+
 /-- what the pointer world says about the handlers, forgetting `pNext` and the head pointers -/
 def view (w : World) : SpecSt :=
   ⟨fun i => (w.obj i).map fun o => (o.pgn, o.owner), w.cb⟩
